@@ -19,7 +19,8 @@ Strings are `JStr = List Nat` (code points).  Every error of the Rust code is `n
   so `ParsedFieldDescriptor(Type::Array(1, ArrayType::Object("[I"))).write()` panics through safe API: `printTy` returns
   `none` there (theorem `print_assert_witness` in `Thm/C18.lean`).
 * `get_arguments_size` accumulates in a `u8` (`size += 2`), the harness is built with overflow checks:
-  `ArgRes.overflow`; `ArrClassNameSlice::dimension` casts the count `as u8` and `assert_ne!(dimension, 0)`.
+  `ArgRes.overflow`; `ArrClassNameSlice::dimension` casts the count `as u8` and `assert_ne!(dimension, 0)`
+  (`dimension = none`; unreachable for a valid `ArrClassName` since b182f7d, theorem `dimension_total`).
 -/
 
 namespace Descriptor
